@@ -63,7 +63,7 @@ def build(reg):
             root, steps = ex.path_of(n.args[0], st, pc); old = ex.read_path(st, root, steps); new = fresh(old.t, "shuf"); pc.extend(wf(new)); ex.write_path(st, root, steps, new)
             ex.assumptions.add("random.shuffle(xs) replaces xs by an arbitrary permutation of itself"); return Val(NONE, z3.BoolVal(True))
         if src.startswith("self.partition("):
-            a, b = [ex.expr(x, st, pc) for x in n.args]; ex.assumptions.add("partition(lst, n) cuts lst into consecutive chunks (ASSUMED contract on a repository helper; the chunk contents matter to C01 only)"); return Val(LL, CHUNKS(a.z, b.z))
+            a, b = [ex.expr(x, st, pc) for x in n.args]; ex.assumptions.add("in the column-structure proof (C02) the result of partition(lst, n) is left abstract: some list of lists; the helper's own contract is proved in this module and is what contracts/gen_custom_slots.py (C01, C03) uses"); return Val(LL, CHUNKS(a.z, b.z))
         if is_call(n, "len", 1):
             a = ex.expr(n.args[0], st, list(pc))
             if isinstance(a, Val) and a.t == CBE: return Val(INT, z3.If(CBE.getf(a.z, "bare"), 2, LP.len(CBE.getf(a.z, "seq"))))
